@@ -854,7 +854,36 @@ def m_sort_by(ex, st, callee, args, dest_ty):
     yield from rec(st, 0, [])
 
 
+def m_iter_flatten(ex, st, callee, args, dest_ty):
+    """slice::Iter<Option<T>>::flatten(): the places of the payloads of the items that are Some, in order"""
+    it = args[0]
+    if it.sort != "SliceIter" or it.e is not None:
+        raise MirUnsupported("flatten over %r" % (it,))
+    base, pos0 = it.info
+    vec = ex.read(st, base.cell, base.projs)
+
+    def rec(st, pos, acc):
+        if pos >= len(vec.items):
+            for st2 in ex.branch(st, vec.len <= pos):
+                cell = ex.new_cell(st2, VecV(z3.IntVal(len(acc)), tuple(acc), "flattened"), "flattened")
+                yield st2, Opaque("SliceIter", "owned", (Ref(cell), 0))
+            return
+        for st2 in ex.branch(st, vec.len <= pos):
+            cell = ex.new_cell(st2, VecV(z3.IntVal(len(acc)), tuple(acc), "flattened"), "flattened")
+            yield st2, Opaque("SliceIter", "owned", (Ref(cell), 0))
+        for st2 in ex.branch(st, vec.len > pos):
+            item = vec.items[pos]
+            for st3 in ex.branch(st2, item.disc == 1):
+                yield from rec(st3, pos + 1, acc + [Ref(base.cell, base.projs + (("index", pos), ("downcast", "Some"), ("field", 0, None)))])
+            for st3 in ex.branch(st2, item.disc != 1):
+                yield from rec(st3, pos + 1, acc)
+    yield from rec(st, pos0, [])
+
+
 VALUE_MODELS += [
+    (R(r"^<std::slice::Iter<'_, Option<.*>> as Iterator>::flatten$"), m_iter_flatten),
+    (R(r"^<(std::iter::)?Flatten<.*> as IntoIterator>::into_iter$"), m_into_iter_id),
+    (R(r"^<(std::iter::)?Flatten<.*> as Iterator>::next$"), m_iter_next),
     (R(r"^<std::slice::Iter(Mut)?<.*> as Iterator>::(filter|map|filter_map)::<.*>$"), m_iter_adapt),
     (R(r"^<(std::iter::)?(Filter|Map|FilterMap)<.*> as Iterator>::collect::<Vec<.*>>$"), m_collect_vec),
     (R(r"^<std::slice::Iter<.*> as Iterator>::position::<.*>$"), m_iter_position),
